@@ -572,5 +572,55 @@ Proof.
   apply (right_kept_home p m Black 0 Hv Hm); [lia|lia|exact Hk|exact Hq].
 Qed.
 
-(** ** the refinement statement (another file's task): the library's move application computes
-    the specification's successor on the abstraction of every board *)
+(** ** (a, continued) what is captured *)
+
+(** in a valid position the man removed by an en-passant capture is an enemy pawn *)
+Lemma ep_ok_victim p t v : ep_ok p = true -> ep p = Some t ->
+  step t (0, - fwdc (turn p))%Z = Some v -> has p v Pawn (opp (turn p)) = true.
+Proof.
+  unfold ep_ok. intros H Ht Hv. rewrite Ht, Hv in H. apply andb_prop in H as [_ H].
+  destruct (step t (0, fwdc (turn p))%Z) as [og|]; [|discriminate].
+  apply andb_prop in H as [H _]. apply andb_prop in H as [H _]. apply andb_prop in H as [H _].
+  apply andb_prop in H as [H _]. exact H.
+Qed.
+Theorem ep_victim_enemy_pawn p m : pos_valid p = true -> In m (legal_moves p) -> is_ep p m = true ->
+  has p (ep_victim m) Pawn (opp (turn p)) = true.
+Proof.
+  intros Hv Hm He. apply pos_valid_facts in Hv. pose proof (legal_ep_facts p m Hm He) as F.
+  exact (ep_ok_victim p _ _ (vf_ep p Hv) (ef_target p m F) (ef_victim_behind p m F)).
+Qed.
+
+(** The opponent's men after a legal move are exactly the opponent's men before, minus the one on
+    the destination square and minus the pawn taken en passant: a captured man is gone and
+    nothing else of the opponent's changes. *)
+Theorem enemy_men_after p m s t : length (placement p) = 64%nat -> In m (legal_moves p) ->
+  (at_ (apply p m) s = Some (t, opp (turn p)) <->
+   at_ p s = Some (t, opp (turn p)) /\ s <> dst m /\ (is_ep p m = true -> s <> ep_victim m)).
+Proof.
+  intros Hlen Hm. destruct (legal_kind p m Hm) as [Hs Hk]. destruct (move_kind_src p m Hk) as [t0 Ht0].
+  assert (Hneq : forall (a b:ptype), Some (a, turn p) <> Some (b, opp (turn p))).
+  { intros a b E. injection E as _ E. symmetry in E. exact (opp_neq _ E). }
+  destruct (N.eq_dec s (dst m)) as [->|Hd].
+  { rewrite (at_apply_dst p m Hlen Hm). split; [intro E; exfalso; exact (Hneq _ _ E)|tauto]. }
+  destruct (N.eq_dec s (src m)) as [->|Hsr].
+  { rewrite (at_apply_src p m Hlen Hm), Ht0. split; [discriminate|].
+    intros [E _]. exfalso. exact (Hneq _ _ E). }
+  destruct (is_ep p m) eqn:Ee.
+  - destruct (N.eq_dec s (ep_victim m)) as [->|Hv].
+    { rewrite (at_apply_ep_victim p m Hlen Hm Ee). split; [discriminate|]. intros [_ [_ H]].
+      exfalso. exact (H eq_refl eq_refl). }
+    rewrite (at_apply_other p m Hlen Hm s Hd Hsr); [tauto|auto|].
+    intro Ec. rewrite (castle_not_ep p m Ec) in Ee. discriminate.
+  - destruct (is_castle p m) eqn:Ec.
+    + pose proof (legal_castle_facts p m Hm Ec) as F.
+      destruct (at_apply_castle p m Hlen Hm Ec) as [A1 A2].
+      destruct (N.eq_dec s (rook_from m)) as [->|Hrf].
+      { rewrite A1, (cf_rook p m F). split; [discriminate|]. intros [E _]. exfalso. exact (Hneq _ _ E). }
+      destruct (N.eq_dec s (rook_to m)) as [->|Hrt].
+      { rewrite A2, (cf_to_empty p m F). split; [intro E; exfalso; exact (Hneq _ _ E)|].
+        intros [E _]. discriminate. }
+      rewrite (at_apply_other p m Hlen Hm s Hd Hsr); [|rewrite Ee; discriminate|auto].
+      split; [|tauto]. intro H. split; [exact H|]. split; [exact Hd|discriminate].
+    + rewrite (at_apply_other p m Hlen Hm s Hd Hsr); [|rewrite Ee; discriminate|rewrite Ec; discriminate].
+      split; [|tauto]. intro H. split; [exact H|]. split; [exact Hd|discriminate].
+Qed.
